@@ -20,9 +20,35 @@ import bisync_graph as bg
 from vlib import Evidence, Verdict, tlc, log
 
 TIERS = {
-    "quick": dict(cfg="MC_Bisync_quick.cfg", tcfg="BisyncTrace_quick.cfg", editable="low", C=2, alt_every=8, fault_states=120, max_states=None),
-    "thorough": dict(cfg="MC_Bisync_thorough.cfg", tcfg="BisyncTrace_quick.cfg", editable="all", C=2, alt_every=4, fault_states=3000, max_states=None),
+    "quick": dict(cfg="MC_Bisync_quick.cfg", tcfg="BisyncTrace_quick.cfg", editable="low", C=2, alt_every=8, fault_states=120, max_states=None,
+                  extra=[dict(cfg="MC_Bisync_two.cfg", tcfg="BisyncTrace_two.cfg", editable="base", C=2, alt_every=10, max_states=None)]),
+    "thorough": dict(cfg="MC_Bisync_thorough.cfg", tcfg="BisyncTrace_quick.cfg", editable="all", C=2, alt_every=4, fault_states=3000, max_states=None,
+                     extra=[dict(cfg="MC_Bisync_two.cfg", tcfg="BisyncTrace_two.cfg", editable="base", C=2, alt_every=4, max_states=None),
+                            dict(cfg="MC_Bisync_c3.cfg", tcfg="BisyncTrace_c3.cfg", editable="low", C=3, alt_every=6, max_states=None)]),
 }
+
+
+def explore_universe(pid, U, copia, bins, work, tag, ev, vd):
+    """model-check one universe, explore the implementation graph over it, return (uni, contents, edges, stats, trusted, blobs, tcfg)"""
+    ppath = os.path.join(work, f"paths-{tag}.json")
+    r = tlc("MC_Bisync", U["cfg"], workers=12, timeout=3000, xmx="12g", env_extra={"PATHS_OUT": ppath})
+    ev.tlc(r)
+    if r.violation:
+        vd.nonconformance(f"TLC: Bisync invariant {r.violation} fails in the model ({U['cfg']})")
+    pathlist = json.load(open(ppath))
+    contents = json.loads(vlib.run_cmd([bins["vh_lib"], "gen-contents", str(U["C"])]).stdout)
+    uni = bg.Universe(pathlist, contents, [])
+    if U["editable"] == "low":
+        editable = [i for i, q in enumerate(uni.paths) if len(q) == 1 or (len(q) == 2 and q[1] == (1, 0))]
+    elif U["editable"] == "base":
+        editable = [i for i, q in enumerate(uni.paths) if len(q) == 1]
+    else:
+        editable = [i for i, q in enumerate(uni.paths) if len(q) == 1 or (len(q) == 2 and q[1][1] == 0)]
+    blob = (pathlist, contents, editable)
+    edges, stats, trusted, blobs = bg.explore(copia, blob, vlib.seed(), os.path.join(work, "g" + tag), max_states=U["max_states"], alt_every=U["alt_every"])
+    log(f"[{pid}] universe {U['cfg']}: model {r.distinct} states, implementation graph {stats['distinct_states']} states, {stats['run_edges']} runs")
+    stats["model_states"] = r.distinct
+    return uni, contents, blob, edges, stats, trusted, blobs
 
 
 def run(pid, tier, ev=None, vd=None, finish=True, want_label=None):
@@ -88,48 +114,14 @@ def run(pid, tier, ev=None, vd=None, finish=True, want_label=None):
         fedges = bg.inject_faults(copia, blob, vlib.seed(), os.path.join(work, "f"), jobs)
         ev.extra["fault_runs"] = len(fedges)
         all_edges = edges + fedges
-        # shard for TLC
-        shard = 4000
-        files = []
-        for k in range(0, len(all_edges), shard):
-            path = os.path.join(work, f"edges{k // shard}.ndjson")
-            with open(path, "w") as f:
-                for e in all_edges[k:k + shard]:
-                    f.write(json.dumps(e) + "\n")
-            files.append((path, len(all_edges[k:k + shard]), k))
-
-        def validate(fn):
-            path, n, off = fn
-            rr = tlc("BisyncTrace", T["tcfg"], workers=1, timeout=3000, env_extra={"TRACE": path}, depth_first=True, xmx="3g")
-            res = rr.payloads.get("RESULT", [])
-            if not res or res[0]["n"] != n:
-                raise vlib.ToolError("BisyncTrace did not consume " + path)
-            return off, res[0]
-
-        nonconf = 0
         want = want_label or {"C02": "C02", "C06": "C06", "C07": "C07", "C15": "C15"}[pid]
-        with ThreadPoolExecutor(max_workers=12) as ex:
-            for off, res in ex.map(validate, files):
-                for (ln, q) in res["bad"]:
-                    if q != want:
-                        continue
-                    e = all_edges[off + ln - 1]
-                    key = f"{e['ev']}-" + "".join(map(str, e["s"]["A"])) + "-" + "".join(map(str, e["s"]["B"])) + "-" + \
-                          ("T" if e["s"]["tr"] else "F") + "".join(map(str, e["s"]["E"])) + (("-" + e.get("fault", "")) if e.get("fault") else "")
-                    vd.violation(key, describe(uni, e, q), {"kind": "bisync-edge", "edge": e, "names": uni.names,
-                                                            "contents": contents, "how": "materialise s (files named by 'names', contents by id), run `copia bisync A B` with HOSTNAME=hh"})
-                for ln in res["nonconf"]:
-                    nonconf += 1
-                    if nonconf <= 3:
-                        e = all_edges[off + ln - 1]
-                        vd.nonconformance("run edge differs from Bisync!RunResult: " + describe(uni, e, "conform"))
-        for e in all_edges:
-            if e["ev"] == "run" and e["alien"]:
-                vd.nonconformance(f"run produced a file / entry outside the universe: {e['alien'][:2]} from {describe(uni, e, '')}")
-                if pid == "C06":
-                    vd.violation("alien-" + str(e["alien"][0][0]), "a run left a file whose name is not <path>.conflict-<host>-<12 hex>[-k] of any known content: "
-                                 + str(e["alien"][:2]), {"kind": "bisync-edge", "edge": e, "names": uni.names, "contents": contents})
-                break
+        nonconf = validate_edges(pid, uni, contents, all_edges, T["tcfg"], work, "m", vd, want)
+        # further universes (two base paths at once; three contents): model check, explore, validate
+        for xi, U in enumerate(T.get("extra", [])):
+            uni2, contents2, blob2, edges2, stats2, _, _ = explore_universe(pid, U, copia, bins, work, f"x{xi}", ev, vd)
+            ev.extra.setdefault("extra_universes", []).append(dict(stats2, cfg=U["cfg"]))
+            nonconf += validate_edges(pid, uni2, contents2, edges2, U["tcfg"], work, f"x{xi}", vd, want)
+            all_edges = all_edges + edges2
         # seeded long histories over larger universes (Monitor only)
         import bisync_hist as bh
         hexes = {}
@@ -180,6 +172,51 @@ def run(pid, tier, ev=None, vd=None, finish=True, want_label=None):
     finally:
         shutil.rmtree(work, ignore_errors=True)
     return vd.finish() if finish else 0
+
+
+def validate_edges(pid, uni, contents, all_edges, tcfg, work, tag, vd, want):
+    """TLC validation (BisyncTrace) of run / dry-run edges of one universe; returns the number of non-conformant edges"""
+    shard = 4000
+    files = []
+    for k in range(0, len(all_edges), shard):
+        path = os.path.join(work, f"edges-{tag}-{k // shard}.ndjson")
+        with open(path, "w") as f:
+            for e in all_edges[k:k + shard]:
+                f.write(json.dumps(e) + "\n")
+        files.append((path, len(all_edges[k:k + shard]), k))
+
+    def validate(fn):
+        path, n, off = fn
+        rr = tlc("BisyncTrace", tcfg, workers=1, timeout=3000, env_extra={"TRACE": path}, depth_first=True, xmx="3g")
+        res = rr.payloads.get("RESULT", [])
+        if not res or res[0]["n"] != n:
+            raise vlib.ToolError("BisyncTrace did not consume " + path + rr.raw_tail[-300:])
+        return off, res[0]
+
+    nonconf = 0
+    with ThreadPoolExecutor(max_workers=12) as ex:
+        for off, res in ex.map(validate, files):
+            for (ln, q) in res["bad"]:
+                if q != want:
+                    continue
+                e = all_edges[off + ln - 1]
+                key = f"{tag}-{e['ev']}-" + "".join(map(str, e["s"]["A"])) + "-" + "".join(map(str, e["s"]["B"])) + "-" + \
+                      ("T" if e["s"]["tr"] else "F") + "".join(map(str, e["s"]["E"])) + (("-" + e.get("fault", "")) if e.get("fault") else "")
+                vd.violation(key, describe(uni, e, q), {"kind": "bisync-edge", "edge": e, "names": uni.names,
+                                                        "contents": contents, "how": "materialise s (files named by 'names', contents by id), run `copia bisync A B` with HOSTNAME=hh"})
+            for ln in res["nonconf"]:
+                nonconf += 1
+                if nonconf <= 3:
+                    e = all_edges[off + ln - 1]
+                    vd.nonconformance("run edge differs from Bisync!RunResult: " + describe(uni, e, "conform"))
+    for e in all_edges:
+        if e["ev"] == "run" and e["alien"]:
+            vd.nonconformance(f"run produced a file / entry outside the universe: {e['alien'][:2]} from {describe(uni, e, '')}")
+            if pid == "C06":
+                vd.violation("alien-" + str(e["alien"][0][0]), "a run left a file whose name is not <path>.conflict-<host>-<12 hex>[-k] of any known content: "
+                             + str(e["alien"][:2]), {"kind": "bisync-edge", "edge": e, "names": uni.names, "contents": contents})
+            break
+    return nonconf
 
 
 def describe(uni, e, q):
